@@ -742,7 +742,7 @@ pub fn run(ctx: &mut Ctx) {
     ctx.rule = "per command of the six sets with a creator: every setter once on a fresh creator, in every/random order; field values exhaustive for setter arguments <= 16 bits (one field swept, the others at random baselines), boundary + random for wider ones, out-of-range arguments included; variable-length builders (EchoIncPayloadAns 0..=241 bytes, McGroupStatusAns 0..=4 items incl. out-of-range ids with the count setter at every position among the pushes, McGroupSetupReq with key wrap checked with the independent AES, RxAppCntAns all 65536, DutVersionsAns); sequences of 1..=10 commands through mac_commands_len/build_mac_commands with exact/short/long buffers; text forms: all 65536 DevNonce, boundary + random values of the other 17 identifier/key types. Non-trivial: any non-default field value or out-of-range argument; distinct by hash of the case".into();
     ctx.assumptions = vec![
         "expected accessor values come from the LoRaWAN 1.0.x / TS005 / TS009 field layouts (little-endian multi-octet fields, MaxEIRP table), not from the crate".into(),
-        "each setter is called at most once on a fresh creator (the statement is about the values that were set)".into(),
+        "when a setter is called again on the same creator the value set last is the one in force; a call that is refused (Err) leaves the field as it was".into(),
         "certification / multicast creators that the crate leaves unimplemented (TxFramesCtrlReq, EchoIncPayloadReq) are not generated".into(),
     ];
     let seed = ctx.seed;
@@ -801,6 +801,41 @@ pub fn run(ctx: &mut Ctx) {
                         }
                         run_one(&steps, st, &mut ex);
                     }
+                }
+            }
+        }
+        // ---- A2: setters called again on the same creator (a builder that is corrected before it
+        // is built): the values in force are the ones set last; a refused call changes nothing
+        for (ci, cmd) in cmds.iter().enumerate() {
+            if ci % n != ti || cmd.fields.is_empty() {
+                continue;
+            }
+            let reps = if thorough { 60_000 } else { 6_000 };
+            for _ in 0..reps {
+                let len = 2 + rng.below(2 * cmd.fields.len() as u64 + 1) as usize;
+                let steps: Vec<(usize, u64)> = (0..len)
+                    .map(|_| {
+                        let j = rng.below(cmd.fields.len() as u64) as usize;
+                        let g = &cmd.fields[j];
+                        let m = if g.arg_bits >= 64 { u64::MAX } else { (1u64 << g.arg_bits) - 1 };
+                        let v = match rng.below(5) {
+                            0 => 0,
+                            1 => m,
+                            2 => 1u64 << rng.below(g.arg_bits as u64),
+                            _ => rng.next_u64() & m,
+                        };
+                        (j, v)
+                    })
+                    .collect();
+                let mut seen = std::collections::BTreeSet::new();
+                if steps.iter().all(|(j, _)| seen.insert(*j)) {
+                    continue; // no setter repeated: covered above
+                }
+                st.eval();
+                st.class("setter-called-again");
+                match check_command(cmd, &steps, &kf, &mut ex) {
+                    Ok(_) => st.nt_hash(hash_value(&cmd_case(cmd, &steps))),
+                    Err(f) => st.fail(f),
                 }
             }
         }
